@@ -1282,6 +1282,157 @@ func (st *plState) putUses(pools []*plPool) ([]plFree, error) {
 	return out, nil
 }
 
+// recvMutations: the clone discipline of the encoders.  An ioCore holds one long-lived encoder; `EncodeEntry`, `Clone`,
+// `With`, `Write` must work on clones (`final`, `context`, `clone`) and never change the receiver.  A method of jsonEncoder /
+// consoleEncoder is *mutating* when it assigns to a field of its receiver, calls anything but Len/Cap/Bytes/String on the
+// receiver's buffers, hands the receiver itself to another function, or calls a mutating method on the receiver (fixpoint;
+// consoleEncoder's embedded *jsonEncoder promotes its methods).  For each entry point the table lists every such operation
+// applied to the receiver (for ioCore: to `c.enc`, where only EncodeEntry and Clone — the entry points themselves — may be
+// called).  All lists are expected to be empty.
+func (st *plState) recvMutations() ([][2]string, []string, error) {
+	p := st.pkgs["zapcore"]
+	if p == nil {
+		return nil, nil, fmt.Errorf("package zapcore not found")
+	}
+	readOnlyBuf := map[string]bool{"Len": true, "Cap": true, "Bytes": true, "String": true}
+	bufFields := map[string]bool{"buf": true, "reflectBuf": true}
+	encTypes := map[string]bool{"jsonEncoder": true, "consoleEncoder": true}
+	methods := map[string]*ast.FuncDecl{} // "Type.method"
+	for _, fd := range p.funcs {
+		if t := recvType(fd); encTypes[t] && fd.Body != nil {
+			methods[t+"."+fd.Name.Name] = fd
+		}
+	}
+	lookup := func(t, m string) string { // method resolution incl. promotion through the embedded *jsonEncoder
+		if _, ok := methods[t+"."+m]; ok {
+			return t + "." + m
+		}
+		if t == "consoleEncoder" {
+			if _, ok := methods["jsonEncoder."+m]; ok {
+				return "jsonEncoder." + m
+			}
+		}
+		return ""
+	}
+	// is e the receiver itself (`enc`, `c`) or its embedded encoder (`c.jsonEncoder`)?
+	isSelf := func(e ast.Expr, rn string) bool {
+		switch x := e.(type) {
+		case *ast.Ident:
+			return x.Name == rn
+		case *ast.SelectorExpr:
+			id, ok := x.X.(*ast.Ident)
+			return ok && id.Name == rn && x.Sel.Name == "jsonEncoder"
+		}
+		return false
+	}
+	mut := map[string]bool{}
+	// ops(fd): the mutating operations fd applies to its receiver, given the current `mut`
+	ops := func(key string, fd *ast.FuncDecl) []string {
+		t, rn := recvType(fd), recvName(fd)
+		var out []string
+		if rn == "" {
+			return nil
+		}
+		ast.Inspect(fd.Body, func(n ast.Node) bool {
+			switch x := n.(type) {
+			case *ast.AssignStmt:
+				for _, l := range x.Lhs {
+					if se, ok := l.(*ast.SelectorExpr); ok && isSelf(se.X, rn) {
+						out = append(out, p.src(x))
+					}
+				}
+			case *ast.IncDecStmt:
+				if se, ok := x.X.(*ast.SelectorExpr); ok && isSelf(se.X, rn) {
+					out = append(out, p.src(x))
+				}
+			case *ast.CallExpr:
+				for _, a := range x.Args {
+					if isSelf(a, rn) {
+						out = append(out, p.src(x))
+					}
+				}
+				se, ok := x.Fun.(*ast.SelectorExpr)
+				if !ok {
+					return true
+				}
+				if isSelf(se.X, rn) { // recv.m(…)
+					if k := lookup(t, se.Sel.Name); k != "" && mut[k] {
+						out = append(out, p.src(x))
+					}
+					return true
+				}
+				if inner, ok := se.X.(*ast.SelectorExpr); ok && isSelf(inner.X, rn) { // recv.buf.F(…), recv.reflectEnc.Encode(…)
+					if bufFields[inner.Sel.Name] && !readOnlyBuf[se.Sel.Name] || inner.Sel.Name == "reflectEnc" {
+						out = append(out, p.src(x))
+					}
+				}
+			}
+			return true
+		})
+		return out
+	}
+	for changed := true; changed; {
+		changed = false
+		for k, fd := range methods {
+			if !mut[k] && len(ops(k, fd)) > 0 {
+				mut[k], changed = true, true
+			}
+		}
+	}
+	var rows [][2]string
+	for _, ep := range []string{"jsonEncoder.EncodeEntry", "jsonEncoder.Clone", "jsonEncoder.clone", "consoleEncoder.EncodeEntry",
+		"consoleEncoder.writeContext", "consoleEncoder.Clone", "consoleEncoder.addSeparatorIfNecessary"} {
+		fd, ok := methods[ep]
+		if !ok {
+			return nil, nil, fmt.Errorf("encoder entry point %s not found", ep)
+		}
+		rows = append(rows, [2]string{"zapcore." + ep, strings.Join(ops(ep, fd), " ; ")})
+	}
+	for _, m := range []string{"With", "Check", "Write", "Sync", "clone"} {
+		fd := p.method("ioCore", m)
+		if fd == nil || fd.Body == nil {
+			return nil, nil, fmt.Errorf("ioCore.%s not found", m)
+		}
+		rn := recvName(fd)
+		isEnc := func(e ast.Expr) bool {
+			se, ok := e.(*ast.SelectorExpr)
+			if !ok || se.Sel.Name != "enc" {
+				return false
+			}
+			id, ok := se.X.(*ast.Ident)
+			return ok && id.Name == rn
+		}
+		var out []string
+		ast.Inspect(fd.Body, func(n ast.Node) bool {
+			switch x := n.(type) {
+			case *ast.AssignStmt:
+				for _, l := range x.Lhs {
+					if isEnc(l) {
+						out = append(out, p.src(x))
+					}
+				}
+			case *ast.CallExpr:
+				for _, a := range x.Args {
+					if isEnc(a) {
+						out = append(out, p.src(x))
+					}
+				}
+				if se, ok := x.Fun.(*ast.SelectorExpr); ok && isEnc(se.X) && se.Sel.Name != "EncodeEntry" && se.Sel.Name != "Clone" {
+					out = append(out, p.src(x))
+				}
+			}
+			return true
+		})
+		rows = append(rows, [2]string{"zapcore.ioCore." + m, strings.Join(out, " ; ")})
+	}
+	var muts []string
+	for k := range mut {
+		muts = append(muts, k)
+	}
+	sort.Strings(muts)
+	return rows, muts, nil
+}
+
 // countReads counts occurrences of the expression text `recv` in s that are not the whole left-hand side of an assignment.
 func countReads(p *plPkg, s ast.Stmt, recv string) int {
 	n := 0
@@ -1437,6 +1588,20 @@ func genPools() (string, int, error) {
 		rows++
 	}
 	sb.WriteString("]\n\n")
+	rm, muts, err := st.recvMutations()
+	if err != nil {
+		return "", 0, err
+	}
+	sb.WriteString("/-- the clone discipline: per entry point, the mutating operations applied to the RECEIVER encoder (expected: none) -/\ndef recvMutations : List (String × String) := [\n")
+	for i, r := range rm {
+		sep := ","
+		if i == len(rm)-1 {
+			sep = ""
+		}
+		fmt.Fprintf(&sb, "  (%s, %s)%s\n", leanStr(r[0]), leanStr(r[1]), sep)
+		rows++
+	}
+	fmt.Fprintf(&sb, "]\n\n/-- encoder methods classified as mutating their receiver -/\ndef mutatingEncoderMethods : List String := %s\n\n", leanStrList(muts))
 	// constructors of buffer pools (`buffer.NewPool()`): who owns one
 	var owners []string
 	for _, dir := range st.order {
